@@ -58,6 +58,8 @@ structure StaticState where
   files : List Bytes := []     -- full paths
   dirs : List Bytes := []      -- full paths
   mount : Option Mount := none
+  viaSym : Bool := false       -- `viasym` seen, the next mount consumes it
+  symMount : Bool := false     -- the root of the current mount was handed to rux as a symbolic link
 
 def StaticState.look (s : StaticState) (full : Bytes) : Node :=
   if full ∈ s.files ∨ full ∈ secrets then .file
@@ -74,6 +76,17 @@ def servedStr : Served → String
   | .nothing => "-"
   | .file f => "file:" ++ relName f
   | .listing f => "list:" ++ relName f
+
+/-- the proper ancestors of a path ("/a/b/c" ↦ "/a", "/a/b") -/
+def properAncestors (p : Bytes) : List Bytes :=
+  (List.range p.length).filterMap fun i => if 0 < i ∧ p[i]? = some 0x2F then some (p.take i) else none
+
+/-- Outside the modelled fragment: the root is a symbolic link whose destination lies below a regular FILE
+    ("…/a.css/x").  Resolving the link itself then fails with ENOTDIR, which `http.Dir.Open` cannot turn into
+    "not found" (`mapOpenError` stats the link and gets the same error): the answer is 500 where a missing path
+    gives 404.  Without the link the same root is answered with 404 (modelled). -/
+def StaticState.linkBelowFile (s : StaticState) (m : Mount) : Bool :=
+  s.symMount && (properAncestors m.target).any (· ∈ s.files)
 
 def parseKind : String → Option Kind
   | "dir" => some .dir
@@ -92,12 +105,13 @@ def staticStep (s : StaticState) : List String → StaticState × String
     match parseHexList fs, parseHexList ds with
     | some fl, some dl =>
       if fl.all okRel && dl.all okRel then
-        ({ files := fl.map (symRoot ++ ·), dirs := dl.map (symRoot ++ ·), mount := none }, "ok")
+        ({ files := fl.map (symRoot ++ ·), dirs := dl.map (symRoot ++ ·), mount := none, viaSym := s.viaSym }, "ok")
       else (s, "bad-op")
     | _, _ => (s, "bad-op")
   | ["mount", kind, enc, pfx, exts, target] =>
     match parseKind kind, Bytes.ofHex pfx, parseHexList exts, Bytes.ofHex target with
     | some k, some p, some es, some t =>
+      let s := { s with symMount := s.viaSym, viaSym := false }
       if t ≠ [] ∧ ¬ okRel t then ({ s with mount := none }, "unsupported") else
       -- flags: bit 0 UseEncodedPath, bit 1 EnableCaching (no effect on what a request observes), bit 2 StrictLastSlash
       let fl := enc.toNat?.getD 0
@@ -111,11 +125,27 @@ def staticStep (s : StaticState) : List String → StaticState × String
     | none, some _, some _, some _ => (s, "unsupported")
     | some m, some p, some r, some e =>
       if p.length > 200 ∨ e.length > 600 then (s, "unsupported") else
+      if s.linkBelowFile m then (s, "unsupported") else
       let resp := serve s.look m { path := p, raw := r, esc := e }
       let names := if m.kind = .fs then hexList resp.names else "-"
       (s, s!"{resp.status / 100} {servedStr resp.served} ;; {resp.status} {names}")
     | _, _, _, _ => (s, "bad-op")
   | ["rawbad", _] => (s, "rejected")
+  | ["viasym"] =>
+    -- the root of the next mount is handed to rux as a symbolic link whose destination is the mount's target
+    -- (which may be missing: a dangling link).  `http.Dir(link).Open(name)` opens `link/name` on every request
+    -- and the operating system follows the link, so the mount behaves exactly like one on the destination
+    -- (one exception, answered `unsupported`: `StaticState.linkBelowFile`).
+    ({ s with viaSym := true }, "ok")
+  | ["grow", fs, ds] =>
+    -- further files and directories appear in the tree; the mount stays (a root that was missing when the
+    -- handler was registered is looked up again on every request, like everything else)
+    match parseHexList fs, parseHexList ds with
+    | some fl, some dl =>
+      if fl.all okRel && dl.all okRel then
+        ({ s with files := s.files ++ fl.map (symRoot ++ ·), dirs := s.dirs ++ dl.map (symRoot ++ ·) }, "ok")
+      else (s, "bad-op")
+    | _, _ => (s, "bad-op")
   | ["gvar", name, regex] =>
     -- `rux.SetGlobalVar(name, regex)` before the next mount.  `parseParamRoute` consults the global vars only
     -- for a route var WITHOUT inline regex; the routes of the four static handlers are `pfx/{file:.+}`,
